@@ -1285,10 +1285,20 @@ def opt_eval_cmd(r, oid, st, sm, tm, ws):
     return {"op": "evaluate", "obj": oid, "x": gen.hv(x), "ws": ws, "costs": gen.cost_params(gen.Rng(5)), "overload": 3}
 
 
-def opt_history_execs(ctx, r, nsample, families, exact=True, maxops=3, ids="{1, 2}", maps="{1}"):
+def opt_history_execs(ctx, r, nsample, families, exact=True, maxops=3, ids="{1, 2}", maps="{1}", simulate=None):
     from vcheck import tlc_generate
     scripts = tlc_generate(ctx, "MCOptObj", mcoptobj_cfg(maxops, True, ids=ids, maps=maps),
-                           "optobj" + ids.replace(" ", "").replace(",", "_").strip("{}") + "m" + str(len(maps)) + "d" + str(maxops), workers=1, timeout=900, heap="8g")
+                           "optobj" + ids.replace(" ", "").replace(",", "_").strip("{}") + "m" + str(len(maps)) + "d" + str(maxops) + ("sim" if simulate else ""),
+                           workers=1, timeout=900, heap="8g", simulate=simulate)
+    if simulate:      # long random walks: keep them all
+        execs = []
+        for k, h in enumerate(scripts):
+            tm, sm = families[k % len(families)]
+            order = gen.ORDERS[k % 3]
+            D = (2, 3, 1)[k % 3] if sm == "lift" else (1, 2, 3)[k % 3]
+            cmds = expand_opt_script(r, h, order, D, tm, sm, exact)
+            execs.append((len(cmds) * D, cmds))
+        return execs
     READERS = ("get_dim", "init_guess", "evaluate")
     SETTERS = ("set_flags", "set_smap", "set_init", "opt_assign")
 
@@ -1352,7 +1362,8 @@ def plan_C09(ctx):
     execs = c09_config_execs(r, ctx.quick())
     # reconfiguration histories: two optimizers up to 4 calls, and ONE optimizer up to 6 calls (setter / query / setter / query ...)
     hexecs = opt_history_execs(ctx, r, 200 if ctx.quick() else 5000, FAMILIES) + \
-        opt_history_execs(ctx, r, 1200 if ctx.quick() else 20000, FAMILIES, maxops=5, ids="{1}")
+        opt_history_execs(ctx, r, 1200 if ctx.quick() else 20000, FAMILIES, maxops=5, ids="{1}") + \
+        ([] if ctx.quick() else opt_history_execs(ctx, r, 0, FAMILIES, maxops=12, simulate=(600, 12)))
     ctx.samples = [[c for c in execs[0][1] if c.get("op") in ("set_flags", "get_dim", "evaluate")][:3]]
     b1 = balanced(execs, 48 if ctx.quick() else 128)
     exe = vbuild.opt_replay()
@@ -1376,6 +1387,8 @@ def plan_C15(ctx):
     hexecs = opt_history_execs(ctx, r, 400 if ctx.quick() else 12000, fams, maxops=4 if not ctx.quick() else 3)
     # two optimizers, no user maps, up to 7 calls: long enough for "configure both, use one, assign the other onto it, use it"
     hexecs += opt_history_execs(ctx, r, 1500 if ctx.quick() else 30000, fams, maxops=6, maps="{}")
+    if not ctx.quick():     # long random walks of 12 calls over two optimizers and a user map (TLC -simulate)
+        hexecs += opt_history_execs(ctx, r, 0, fams, maxops=12, simulate=(600, 12))
     # spline-object copies
     tab = ProbTable(ctx.seed)
     sexecs = []
